@@ -56,6 +56,7 @@ COMPONENT_BOTTOM_DEFAULT = None
 K_PARA = "closing-border-dropped-when-paragraph-component-on-page"
 K_FIRST1 = "first-placed-table-component-not-closed-on-single-page"
 K_PERCOL = "per-column-border-top-overrides-body-border-first"
+K_MULTI_TOP = "multi-section-headerless-first-section-top-is-body-border-first"
 
 
 def got_style(cell, side):
@@ -102,7 +103,7 @@ def eval_case(case: dict) -> dict:
         out = b.doc.rtf_encode()
     except Exception as e:  # every configuration of the space is valid
         return {"viol": [{"klass": None, "sig": f"encode-raised-{type(e).__name__}", "detail": f"{type(e).__name__}: {e}"}],
-                "nt": False, "cnt": {"encode-raised": 1}}
+                "nt": False, "cnt": {"encode-raised": 1, "multi" if spec.get("kind") == "multi" else "single": 1}}
     doc = parse(out)
     if doc.errors:
         viol.append({"klass": None, "sig": "unparseable-" + doc.errors[0][0], "detail": str(doc.errors[:3])})
@@ -153,7 +154,14 @@ def eval_case(case: dict) -> dict:
         if first_pi != 0:
             viol.append({"klass": None, "sig": "first-page-without-table-row", "detail": "page 1 has no table row"})
         if any(g != PF for g in _row_edge(frow, "t")):
-            bad("clause1-doc-top", f"first table row of the document ({frole})", PF, frow, "t", sigx=f"-{frole}")
+            klass = None
+            if multi and not has_header and frole == "data":
+                # narrow: [None] headers for section 1 count as "has column headers", so the first data
+                # row gets section 1's body border_first (all cells) instead of the page border_first
+                bf1 = CODE[(spec["sections"][0].get("body") or {}).get("border_first", "single")]
+                if all(g == bf1 for g in _row_edge(frow, "t")):
+                    klass = K_MULTI_TOP
+            bad("clause1-doc-top", f"first table row of the document ({frole})", PF, frow, "t", klass=klass, sigx=f"-{frole}")
 
     # ---- clause 2: last table row of the document
     last_pi, _, (lrow, lrole, _linfo) = all_rows[-1]
@@ -161,11 +169,17 @@ def eval_case(case: dict) -> dict:
     bump(f"doc-closing-row={lrole}")
     c2_failed = any(g != PL for g in _row_edge(lrow, "b"))
     tbl_comp = [(k, o) for k, o in (("footnote", pf_opt), ("source", ps_opt)) if (spec.get(k) or "").startswith("table")]
-    # narrow class B: one-page document, every table-rendered component is placed "first", the
+    # narrow class B: one-page document (multi-section: one-page last section), every table-rendered component is placed "first", the
     # component row (which closes the table) shows its own default bottom (none) and the page
     # border_last sits on the last data row instead.
     last_data_on_last_page = [t for t in pages[last_pi][0] if t[1] == "data"]
-    first1 = (not multi and n_pages == 1 and lrole in ("footnote_table", "source_table") and tbl_comp
+    if multi:   # the table part that the component closes = the last section; is it on one page?
+        last_tag = "ABCDE"[len(spec["sections"]) - 1]
+        on_pages = {pi for pi, _, (_r, role, info) in all_rows if role == "data" and info[0] == last_tag}
+        single_page = on_pages == {last_pi}
+    else:
+        single_page = n_pages == 1
+    first1 = (single_page and lrole in ("footnote_table", "source_table") and tbl_comp
               and all(o == "first" for _, o in tbl_comp) and last_data_on_last_page
               and all(g == COMPONENT_BOTTOM_DEFAULT for g in _row_edge(lrow, "b"))
               and all(g == PL for g in _row_edge(last_data_on_last_page[-1][0], "b")))
@@ -277,7 +291,7 @@ def eval_case(case: dict) -> dict:
 NCOL = 3
 COLS = ["s", "i", "s"]
 # (rows, nrow): one page / two-three pages / three and more, for every reservation of the product
-SIZES = {"1": (4, 40), "2": (6, 10), "3": (9, 8)}
+SIZES = {"1": (4, 40), "2": (7, 7), "3": (11, 6)}
 
 
 def keys_for(strat, size_cls, n):
@@ -341,8 +355,8 @@ def plan(run):
         "core = footnote{absent,table,para} x source{absent,table,para} x page_footnote{first,last,all} x page_source{...} x "
         "header{explicit,none} (162 cells) x strategy{plain,page_by,subline_by} x size class{1 page, 2-3, 3+} x user borders "
         "{default, scalar, per column} x style rotation (14 rotations put each of the 14 distinct styles into each of "
-        "rtf_page.border_first/last, rtf_body.border_first/last and the user's top/bottom/left/right; quick: 2 seed-rotated rotations, "
-        "thorough: all 14) x page_title (quick: one seed-rotated value, thorough: all 3); 3^4 product of three disjoint style triples over "
+        "rtf_page.border_first/last, rtf_body.border_first/last and the user's top/bottom/left/right; quick: 2 seed-rotated rotations (default user borders with the first only), "
+        "thorough: all 14) x page_title (quick: one seed-rotated value; thorough: all 3 for rotations 0/5/10, one value for the others); 3^4 product of three disjoint style triples over "
         "the four settings x a 2-page anchor set; per-cell user-border matrices on interior rows of one-page documents; header variants "
         "(auto header, two header rows, pageby_header=False); 2- and 3-section documents (clauses 1 and 2 only). "
         "non-trivial = >= 2 pages or a table-rendered footnote/source closes the table; distinct = distinct spec")
@@ -362,23 +376,28 @@ def plan(run):
     pts = PLACE if not quick else (PLACE[seed % 3],)
     umodes = ("default", "scalar", "percol")
 
+    def pts_of(k):
+        # thorough: every rotation with one page_title value, rotations 0/5/10 with all three
+        return pts if (quick or k in (0, 5, 10)) else (PLACE[k % 3],)
+
     def core_layer():
-        for k in rots:
+        for ki, k in enumerate(rots):
             a = assignment(k)
-            for pt in pts:
-                for um in umodes:
+            for pt in pts_of(k):
+                for um in (umodes if not (quick and ki > 0) else umodes[1:]):
                     for strat in ("plain", "page_by", "subline_by"):
                         for sc in ("1", "2", "3"):
                             for fn, src, pf, ps, hm in core_cells():
                                 yield table_spec(fn, src, pf, ps, hm, strat, sc, a, um, pt)
 
-    total = len(rots) * len(pts) * 3 * 3 * 3 * 162
+    total = sum(len(pts_of(k)) * (3 if not (quick and ki > 0) else 2) for ki, k in enumerate(rots)) * 3 * 3 * 162
     run.layer("core-product", "mc.props.c07:eval_case", core_layer(), chunk=120, total=total)
 
     # 3^4 product of disjoint style triples for the four settings
     T = {"PF": STYLES[0:3], "PL": STYLES[3:6], "BF": STYLES[6:9], "BL": STYLES[9:12]}
     anchors = [(fn, src, pf, ps, hm) for fn, src, pf, ps, hm in core_cells()
-               if (not quick) or (pf == ps and (fn, src) in ((None, None), ("table", "para"), ("para", "table"), ("para", None), ("table", "table")))]
+               if (not quick) or (pf == ps and hm == ("explicit", "none")[pf != "all"] and
+                           (fn, src) in ((None, None), ("table", "para"), ("para", "table"), ("para", None), ("table", "table")))]
     prod = []
     for pfs, pls, bfs, bls in itertools.product(T["PF"], T["PL"], T["BF"], T["BL"]):
         a = {"PF": pfs, "PL": pls, "BF": bfs, "BL": bls, "UT": STYLES[12], "UB": STYLES[13], "UT2": STYLES[13], "UB2": STYLES[12],
@@ -399,7 +418,7 @@ def plan(run):
 
     # header variants
     hv = []
-    for k in (rots if not quick else rots[:1]):
+    for k in (rots[::4] if not quick else rots[:1]):
         a = assignment(k)
         for hm, more in (("default", {}), ("two", {}), ("explicit", {"pageby_header": False}), ("default", {"pageby_header": False})):
             for strat in ("plain", "page_by", "subline_by"):
@@ -430,6 +449,7 @@ def plan(run):
     # vacuity guards
     for need in ("pages=1", "pages=2", "pages=3", "c1-edges", "c2-edges", "c3-edges", "c4-edges", "c5-edges", "multi",
                  "plain:pages=1", "page_by:pages=1", "subline_by:pages=1", "plain:pages=2", "page_by:pages=2", "subline_by:pages=2",
+                 "plain:pages=3", "page_by:pages=3", "subline_by:pages=3",
                  "doc-closing-row=data", "doc-closing-row=footnote_table", "doc-closing-row=source_table",
                  "page-closing-row=data", "page-closing-row=footnote_table", "page-closing-row=source_table",
                  "c1-excluded-page_by-without-header"):
